@@ -8,24 +8,51 @@
    (proposed_fixes/C33-foreign-thread-cancel-marshalled.diff, applied to /repo).
    The theorems hold for the thread-safe scheduler as repaired with ANY foreign threads, and for either
    scheduler when only the loop thread uses it (the intended use of the plain AsyncIOScheduler).
-   Assumption of the property, built into the system: the loop does not start while a dispose() that
-   found it not running is in progress. *)
+   The loop may be stopped and run again any number of times ([AStop] = loop.stop(), from an action, from
+   the loop thread between two runs, or from any thread; run_forever() returns between two iterations of
+   _run_once with whatever is queued still queued; [segs] = what the loop thread calls before each further
+   run_forever()).  What the unchanged code guarantees there: a dispose() that found the loop running has
+   marshalled cancel_handle and stays in future.result() until cancel_handle has run ON the loop -- across
+   a stop, until the loop is run again (for ever if it never is: C33_ex_stopped_for_good) -- so it never
+   returns with an uncancelled handle (C33_dispose_returns_cancelled); the action may start meanwhile, but
+   then dispose() has not returned yet (C33_ex_stop_with_cancel_queued).
+   Assumption of the property, built into the system: the loop does not start (again) while a dispose()
+   that found it not running is in progress. *)
 From RxVerif Require Import Base.Prelude Core.AsyncIO Core.AsyncIOFacts.
 Local Open Scope Z_scope.
 
 (* once dispose() on the returned disposable has returned, the action does not start -- for every
    schedule, whether dispose() ran on the loop thread (before run_forever() or inside an action) or on a
    foreign thread (direct path while the loop is not running, marshalled while it is) *)
-Theorem C33_cancel_effective : forall ts fixed abody t0 pre progs sched l1 u l2,
+Theorem C33_cancel_effective : forall ts fixed abody t0 pre segs progs sched l1 u l2,
   (ts && fixed = true \/ progs = []) ->
-  AL_ (arun ts fixed abody (ainit t0 pre progs) sched) = l1 ++ ADispRet u :: l2 -> ~ In (AStart u) l2.
+  AL_ (arun ts fixed abody (ainit t0 pre segs progs) sched) = l1 ++ ADispRet u :: l2 -> ~ In (AStart u) l2.
 Proof. exact aio_cancel_effective. Qed.
 Print Assumptions C33_cancel_effective.
 
-(* actions start on the loop thread only *)
-Theorem C33_on_loop_thread : forall ts fixed abody t0 pre progs sched tid t u,
+(* dispose() never returns before the cancellation has been carried out: when it has returned, every handle
+   created so far for that call (interval, stage2, the timer) is cancelled -- for the marshalled path:
+   future.result() is not left before cancel_handle has run on the loop, however often the loop was stopped
+   and run again in between *)
+Theorem C33_dispose_returns_cancelled : forall ts fixed abody t0 pre segs progs sched u h,
   (ts && fixed = true \/ progs = []) ->
-  In (tid, t, AStart u) (a_log (arun ts fixed abody (ainit t0 pre progs) sched)) -> tid = 0%nat.
+  let c := arun ts fixed abody (ainit t0 pre segs progs) sched in
+  In (ADispRet u) (AL_ c) -> owner (a_sh c) h = Some u -> amem h (acanc (a_sh c)) = true.
+Proof. exact aio_dispose_returns_cancelled. Qed.
+Print Assumptions C33_dispose_returns_cancelled.
+
+(* a thread in future.result() does not move while the future has no result (only cancel_handle, run by the
+   loop, sets it): while the loop is stopped the dispose() blocks *)
+Theorem C33_wait_blocks : forall ts fixed abody c tid u f todo,
+  nth_error (a_ths c) tid = Some (AF (Some (FWait u f)) todo) -> amem f (afut (a_sh c)) = false ->
+  atstep ts fixed abody c tid = c.
+Proof. exact aio_wait_blocks. Qed.
+Print Assumptions C33_wait_blocks.
+
+(* actions start on the loop thread only *)
+Theorem C33_on_loop_thread : forall ts fixed abody t0 pre segs progs sched tid t u,
+  (ts && fixed = true \/ progs = []) ->
+  In (tid, t, AStart u) (a_log (arun ts fixed abody (ainit t0 pre segs progs) sched)) -> tid = 0%nat.
 Proof. exact aio_on_loop_thread. Qed.
 Print Assumptions C33_on_loop_thread.
 
@@ -46,14 +73,14 @@ Print Assumptions C33_same_schedule_repaired.
 (* an immediate and a relative action run; a foreign dispose of the relative one while the loop runs is
    marshalled and effective; a dispose from inside an action (on the loop thread) is direct *)
 Example C33_ex_runs :
-  let c := arun true true noaction (ainit 0 [ANow] [[ARel 1000]])
+  let c := arun true true noaction (ainit 0 [ANow] [] [[ARel 1000]])
                 ([AMStep 0; AMStep 0; AMStep 1] ++ repeat (AMStep 0%nat) 8 ++ [AMTick 1000] ++ repeat (AMStep 0%nat) 6) in
   map snd (a_log c) = [ARet 0; ARet 1; AStart 0; AEnd 0; AStart 1; AEnd 1]%nat /\
   map (fun x => snd (fst x)) (filter (fun x => match snd x with AStart _ => true | _ => false end) (a_log c)) = [0; 1000].
 Proof. vm_compute. split; reflexivity. Qed.
 
 Example C33_ex_marshalled_dispose :
-  let c := arun true true noaction (ainit 0 [] [[ARel 1000; ADispose 0%nat]])
+  let c := arun true true noaction (ainit 0 [] [] [[ARel 1000; ADispose 0%nat]])
                 ([AMStep 0; AMStep 1; AMStep 1]%nat ++ repeat (AMStep 0%nat) 10 ++ [AMStep 1%nat; AMTick 1000] ++
                  repeat (AMStep 0%nat) 6) in
   map snd (a_log c) = [ARet 0; ADispRet 0]%nat /\ aeff (a_sh c) = [0%nat] /\ map astatus (a_ths c) = [2; 1]%nat /\
@@ -62,11 +89,74 @@ Proof. vm_compute. repeat split; reflexivity. Qed.
 
 Example C33_ex_dispose_on_loop_thread :
   let body := abody_of [(0%nat, [ADispose 1%nat])] in
-  let c := arun true true body (ainit 0 [ANow; ARel 500] []) (repeat (AMStep 0%nat) 12 ++ [AMTick 500] ++ repeat (AMStep 0%nat) 6) in
+  let c := arun true true body (ainit 0 [ANow; ARel 500] [] []) (repeat (AMStep 0%nat) 12 ++ [AMTick 500] ++ repeat (AMStep 0%nat) 6) in
   map snd (a_log c) = [ARet 0; ARet 1; AStart 0; ADispRet 1; AEnd 0]%nat.
 Proof. vm_compute. reflexivity. Qed.
 
 Example C33_ex_dispose_before_loop_runs :
-  let c := arun false true noaction (ainit 0 [ANow; ARel 500; ADispose 0%nat] []) (repeat (AMStep 0%nat) 8 ++ [AMTick 500] ++ repeat (AMStep 0%nat) 6) in
+  let c := arun false true noaction (ainit 0 [ANow; ARel 500; ADispose 0%nat] [] []) (repeat (AMStep 0%nat) 8 ++ [AMTick 500] ++ repeat (AMStep 0%nat) 6) in
   map snd (a_log c) = [ARet 0; ARet 1; ADispRet 0; AStart 1; AEnd 1]%nat.
 Proof. vm_compute. reflexivity. Qed.
+
+(* ---- the loop is stopped while callbacks are queued, and run again -------------------------------- *)
+(* action 0 stops the loop; while it runs a foreign thread schedules action 1 and disposes it (marshalled:
+   _ready = [interval 1; cancel_handle]).  The loop stops with both queued; the foreign thread stays in
+   future.result() (status 2) while the clock advances.  When the loop is run again, interval 1 comes
+   first: the action starts -- dispose() has NOT returned yet -- then cancel_handle runs and dispose()
+   returns. *)
+Definition stop_body := abody_of [(0%nat, [AStop])].
+Definition stop_c1 := arun true true stop_body (ainit 0 [ANow] [[]] [[ANow; ADispose 1%nat]])
+   ([AMStep 0; AMStep 0; AMStep 0; AMStep 0; AMStep 0; AMStep 1; AMStep 1; AMStep 0; AMStep 0; AMStep 1; AMTick 500;
+     AMStep 1]%nat).
+Example C33_ex_stop_with_cancel_queued :
+  (map snd (a_log stop_c1) = [ARet 0; AStart 0; ARet 1; AStopEv; AEnd 0]%nat /\
+   map astatus (a_ths stop_c1) = [0; 2]%nat /\ arunning (a_sh stop_c1) = false /\ aready (a_sh stop_c1) = [1; 2]%nat) /\
+  let c := arun true true stop_body stop_c1 (repeat (AMStep 0%nat) 8 ++ [AMStep 1%nat]) in
+  map snd (a_log c) = [ARet 0; AStart 0; ARet 1; AStopEv; AEnd 0; AStart 1; AEnd 1; ADispRet 1]%nat /\
+  map astatus (a_ths c) = [2; 1]%nat.
+Proof. vm_compute. repeat split; reflexivity. Qed.
+
+(* the cancellation overtakes a timer: action 0 stops the loop, stage2 of the relative call 1 still runs in that
+   iteration, the foreign dispose of call 1 is queued behind it; the loop stops, the timer expires while the
+   loop is stopped; on the next run cancel_handle is ahead of the expired timer: the action never starts *)
+Definition stop_c2 := arun true true stop_body (ainit 0 [ANow; ARel 500] [[]] [[ADispose 1%nat]])
+   ([AMStep 0; AMStep 0; AMStep 0; AMStep 0; AMStep 0; AMStep 0; AMStep 1; AMStep 0; AMStep 0; AMStep 0; AMStep 0;
+     AMStep 0; AMStep 1; AMTick 500; AMStep 1]%nat).
+Example C33_ex_stop_timer_expires_while_stopped :
+  (map snd (a_log stop_c2) = [ARet 0; ARet 1; AStart 0; AStopEv; AEnd 0]%nat /\
+   map astatus (a_ths stop_c2) = [0; 2]%nat /\ arunning (a_sh stop_c2) = false /\
+   aready (a_sh stop_c2) = [2%nat] /\ atimers (a_sh stop_c2) = [(500, 3%nat)]) /\
+  let c := arun true true stop_body stop_c2 (repeat (AMStep 0%nat) 8 ++ [AMStep 1%nat]) in
+  map snd (a_log c) = [ARet 0; ARet 1; AStart 0; AStopEv; AEnd 0; ADispRet 1]%nat /\
+  map astatus (a_ths c) = [2; 1]%nat /\ acanc (a_sh c) = [1; 3]%nat.
+Proof. vm_compute. repeat split; reflexivity. Qed.
+
+(* liveness is NOT promised: if the loop is never run again (no further segment), the marshalled dispose()
+   stays in future.result() for ever -- it does not return, so the property is kept; recorded as a quirk *)
+Example C33_ex_stopped_for_good :
+  let c := arun true true stop_body (ainit 0 [ANow] [] [[ANow; ADispose 1%nat]])
+             ([AMStep 0; AMStep 0; AMStep 0; AMStep 0; AMStep 0; AMStep 1; AMStep 1; AMStep 0; AMStep 0; AMStep 1;
+               AMTick 500; AMStep 1; AMStep 0; AMStep 0]%nat) in
+  map snd (a_log c) = [ARet 0; AStart 0; ARet 1; AStopEv; AEnd 0]%nat /\ map astatus (a_ths c) = [1; 2]%nat /\
+  a_ths c = [AL LDone; AF (Some (FWait 1 0)) []].
+Proof. vm_compute. repeat split; reflexivity. Qed.
+
+(* loop.stop() before run_forever(): exactly one iteration runs (zero select timeout), then the loop stops *)
+Example C33_ex_stop_before_run :
+  let c := arun true true noaction (ainit 0 [ANow; ARel 500; AStop] [] []) (repeat (AMStep 0%nat) 12) in
+  map snd (a_log c) = [ARet 0; ARet 1; AStopEv; AStart 0; AEnd 0]%nat /\ a_ths c = [AL LDone] /\
+  atimers (a_sh c) = [(500, 2%nat)].
+Proof. vm_compute. repeat split; reflexivity. Qed.
+
+(* the busy callback: action 0 waits for the clock (the loop is running, busy), meanwhile a foreign thread
+   schedules action 1 and disposes it; action 0 then stops the loop, which is run again 4 ms later.  The
+   dispose() is still waiting then; it returns after cancel_handle ran, i.e. after interval 1 ran. *)
+Example C33_ex_busy_callback_stop_run_again :
+  let body := abody_of [(0%nat, [ASleep 1000; AStop])] in
+  let c := arun true true body (ainit 0 [ANow] [[ASleep 5000]] [[ANow; ADispose 1%nat]])
+             ([AMStep 0; AMStep 0; AMStep 0; AMStep 0; AMStep 0; AMStep 1; AMStep 1; AMTick 1000; AMStep 0; AMStep 0;
+               AMStep 0; AMStep 1; AMTick 4000] ++ repeat (AMStep 0%nat) 9 ++ [AMStep 1])%nat in
+  map snd (a_log c) = [ARet 0; AStart 0; ARet 1; ASlept; AStopEv; AEnd 0; ASlept; AStart 1; AEnd 1; ADispRet 1]%nat /\
+  map (fun x => snd (fst x)) (a_log c) = [0; 0; 0; 1000; 1000; 1000; 5000; 5000; 5000; 5000] /\
+  map astatus (a_ths c) = [2; 1]%nat.
+Proof. vm_compute. repeat split; reflexivity. Qed.
